@@ -250,7 +250,7 @@ func c15RouteCriteriaImmutable(c *Ctx) {
 			}
 			recv := f.Params[0]
 			forEachInstr(f, false, func(_ *ssa.Function, in ssa.Instruction) {
-				if st, ok := in.(*ssa.Store); ok && rootOf(st.Addr) == ssa.Value(recv) {
+				if st, ok := in.(*ssa.Store); ok && sameParam(rootOf(st.Addr), recv) {
 					mutating[m.Name()] = true
 				}
 			})
